@@ -155,6 +155,9 @@ func TestC07(t *testing.T) {
 	for _, cfg := range cfgs {
 		cfg := cfg
 		ca := a
+		if cfg.R != 0 {
+			ca.NoFetchErrors = true
+		}
 		if cfg.NetHead != 0 {
 			ca = evAlpha{Skips: []int{2}, Head: true, Errors: false, LagHead: true}
 		}
